@@ -985,14 +985,22 @@ func (fr *Frame) execCopy(b *ssa.BasicBlock, st *State, args []Val, resT types.T
 	arrD, offD := sApp("sl_arr", d), sApp("sl_off", d)
 	oldRow := sSel(heapBefore, arrD)
 	newRow := fc.freshConst("copyrow", arrSort(sortOf(el)))
-	var facts []string
 	if !srcIsString {
 		rowS := sSel(heapBefore, sApp("sl_arr", s))
 		offS := sApp("sl_off", s)
-		facts = append(facts, fmt.Sprintf("(forall ((i Int)) (! (=> (and (<= 0 i) (< i %s)) (= (select %s (+ %s i)) (select %s (+ %s i)))) :pattern ((select %s (+ %s i)))))", n, newRow, offD, rowS, offS, newRow, offD))
+		fc.qcount++
+		iv := fmt.Sprintf("qv%dx_ci", fc.qcount)
+		body := fmt.Sprintf("(=> (and (<= 0 %s) (< %s %s)) (= (select %s (+ %s %s)) (select %s (+ %s %s))))", iv, iv, n, newRow, offD, iv, rowS, offS, iv)
+		all := fmt.Sprintf("(forall ((%s Int)) (! %s :pattern ((select %s (+ %s %s)))))", iv, body, newRow, offD, iv)
+		fc.addFactQ(fr.reach[b.Index], all, []QInst{{Forall: all, Var: iv, Inst: body}})
+		fc.appendLens = append(fc.appendLens, offD)
 	}
-	facts = append(facts, fmt.Sprintf("(forall ((j Int)) (! (=> (or (< j %s) (>= j (+ %s %s))) (= (select %s j) (select %s j))) :pattern ((select %s j))))", offD, offD, n, newRow, oldRow, newRow))
-	fr.assume(b, sAnd(facts...))
+	fc.qcount++
+	jv := fmt.Sprintf("qv%dx_cj", fc.qcount)
+	body2 := fmt.Sprintf("(=> (or (< %s %s) (>= %s (+ %s %s))) (= (select %s %s) (select %s %s)))", jv, offD, jv, offD, n, newRow, jv, oldRow, jv)
+	all2 := fmt.Sprintf("(forall ((%s Int)) (! %s :pattern ((select %s %s))))", jv, body2, newRow, jv)
+	fc.addFactQ(fr.reach[b.Index], all2, []QInst{{Forall: all2, Var: jv, Inst: body2}})
+	fc.appendOffs = append(fc.appendOffs, offD)
 	fr.checkLoopWrite(h, arrD)
 	fc.logWrite(h, arrD)
 	// copying into a nil/empty slice changes nothing
